@@ -1,0 +1,57 @@
+//go:build verif
+
+package common
+
+// C05-run (agent AA): RunSetup verified on its own, for an arbitrary `isTransaction` classification (tag c05rs). The Run methods
+// of the precompiles are verified with RunSetup executed in place (tag c05ri), where the classification is the precompile's own.
+
+/*@
+// ---- RunSetup
+// Preconditions are facts of the call site chain vm.EVM.Call/CallCode/StaticCall -> runPrecompiledContract -> Run -> RunSetup:
+// evm and contract are non-nil (NewPrecompile), a *statedb.StateDB handed to the EVM is non-nil (statedb.New), the contract
+// carries a value unless the frame was entered by DELEGATECALL (nil value) - see FINDING AA2 -, block heights are >= 0.
+func (Precompile).RunSetup
+    requires wf: evm != nil && contract != nil
+    requires sdb: isdyn(evm.StateDB, *SDBc) ==> dyn(evm.StateDB, *SDBc) != nil
+    requires golen: len(contract.Input) >= 0
+    let sdb = dyn(evm.StateDB, *SDBc)
+    let ctx0 = sdb.ctx
+    let m = result.2
+    let in = contract.Input
+    let ok = result.5 == nil
+    call isTransaction contract c05r.isTransaction
+    modifies gasw, gas_base
+    // the deferred out-of-gas handler (HandleGasError$1) is built with what its contract requires
+    call HandleGasError requires site: contract != nil && err != nil && gas_consumed(ctx_gasmeter(ctx)) >= initialGas
+    // ---- the StateDB handed on is the EVM's *statedb.StateDB; anything else is an error
+    ensures not_evm: !isdyn(evm.StateDB, *SDBc) ==> !ok
+    ensures statedb: ok ==> isdyn(evm.StateDB, *SDBc) && result.1 == sdb && result.1 != nil
+    // ---- C05: a transaction method cannot run in a read-only frame (STATICCALL, and here also DELEGATECALL / CALLCODE)
+    ensures c05_readonly: ok && readOnly ==> !istx_param(m.Name)
+    ensures c05_readonly_err: isdyn(evm.StateDB, *SDBc) && len(in) >= 4 && readOnly && (forall n string :: has(p.ABI.Methods, n) && abi_id_of(p.ABI.Methods[n]) == sel4(in[0:4]) ==> istx_param(n)) && p.ABI.Fallback.Type != 1 ==> !ok
+    // ---- the method is the one selected by the first four bytes of the input (or receive / fallback)
+    ensures method: ok ==> m != nil
+    ensures selected: ok && len(in) >= 4 && !(p.ABI.Fallback.Type == 1 && *m == p.ABI.Fallback) ==> has(p.ABI.Methods, m.Name) && *m == p.ABI.Methods[m.Name] && abi_id_of(*m) == sel4(in[0:4])
+    ensures short: ok && len(in) < 4 ==> p.ABI.Fallback.Type == 1 && *m == p.ABI.Fallback || len(in) == 0 && p.ABI.Receive.Type == 2 && *m == p.ABI.Receive
+    ensures unknown: len(in) >= 4 && (forall n string :: has(p.ABI.Methods, n) ==> abi_id_of(p.ABI.Methods[n]) != sel4(in[0:4])) && p.ABI.Fallback.Type != 1 ==> !ok
+    // ---- args are the unpacked inputs of that method (none for receive / fallback); integers are never nil
+    ensures args: ok && m.Type == 3 ==> abi_unpack_ok(m.Inputs, in[4:len(in)]) && result.4 == abi_unpack_vals(m.Inputs, in[4:len(in)])
+    ensures args_ints: ok ==> (forall k int :: 0 <= k && k < len(result.4) && isdyn(result.4[k], *BigIntC) ==> dyn(result.4[k], *BigIntC) != nil)
+    ensures noargs: ok && m.Type != 3 ==> len(result.4) == 0
+    ensures baddata: isdyn(evm.StateDB, *SDBc) && len(in) >= 4 && ok ==> m.Type != 3 || abi_unpack_ok(m.Inputs, in[4:len(in)])
+    // ---- the context is the StateDB's context with a fresh gas meter limited to the contract's gas and the precompile's KV gas configs
+    ensures ctx_store: ok ==> ctx_same_store(result.0, ctx0) && ctx_height(result.0) == ctx_height(ctx0) && ctx_blocktime(result.0) == ctx_blocktime(ctx0)
+    ensures ctx_meter: ok ==> gas_limit(ctx_gasmeter(result.0)) == contract.Gas
+    ensures ctx_kvgas: ok ==> ctx_kvgas(result.0) == p.KvGasConfig && ctx_tkvgas(result.0) == p.TransientKVGasConfig
+    // ---- initial gas: what the StateDB context's meter had consumed when RunSetup ran; the new meter starts from exactly that
+    ensures initial_gas: ok ==> result.3 == old(gasw)[ctx_gasmeter(ctx0)]
+    ensures meter_starts: ok ==> gasw[ctx_gasmeter(result.0)] == result.3 && gas_base[ctx_gasmeter(result.0)] == result.3 && result.3 <= contract.Gas
+    // ---- a call is refused ONLY for these reasons: a known selector with decodable arguments in a writable frame is accepted
+    // (n0: any method of the ABI with the selector of the input)
+    ghostvar n0 string
+    ensures accepted: isdyn(evm.StateDB, *SDBc) && len(in) >= 4 && !readOnly && has(p.ABI.Methods, n0) && abi_id_of(p.ABI.Methods[n0]) == sel4(in[0:4])
+            && (forall n2 string :: has(p.ABI.Methods, n2) && abi_id_of(p.ABI.Methods[n2]) == sel4(in[0:4]) ==> p.ABI.Methods[n2].Type != 3 || abi_unpack_ok(p.ABI.Methods[n2].Inputs, in[4:len(in)])) ==> ok
+    // ---- a refused call hands nothing on
+    ensures refused: !ok ==> result.1 == nil && result.2 == nil && result.3 == 0 && len(result.4) == 0
+    // ---- nothing is written: no store, no StateDB, no contract field (frame obligations), in particular NO flush of the StateDB here
+@*/
